@@ -32,7 +32,7 @@ func init() {
 		Run: func(t *testing.T, rec *core.Recorder) {
 			env, _ := sharedEnv(t)
 			checkDefaultSetsAgree(t, rec, env)
-			checkParamCellsIndependent(t, rec)
+			checkParamCellsIndependent(t, rec, "C06")
 			check(t, func(rt *rapid.T) {
 				defer env.Release()
 				sc := drawSelCase(rt)
@@ -44,7 +44,7 @@ func init() {
 			var sc selCase
 			if err := json.Unmarshal(raw, &sc); err != nil || sc.WS == nil {
 				checkDefaultSetsAgree(t, rec, env)
-				checkParamCellsIndependent(t, rec)
+				checkParamCellsIndependent(t, rec, "C06")
 				return
 			}
 			checkC06(t, rec, env, &sc)
@@ -239,7 +239,7 @@ func checkDefaultSetsAgree(t core.TB, rec *core.Recorder, env *gen.Env) {
 // write flag values into the registered cells of checkers whether or not they are selected, so a
 // cell shared by two checkers lets the parameter of an unselected checker configure a selected one.
 // Every registered parameter is changed in turn (and restored); no other parameter may move.
-func checkParamCellsIndependent(t core.TB, rec *core.Recorder) {
+func checkParamCellsIndependent(t core.TB, rec *core.Recorder, id string) {
 	type cell struct {
 		key string
 		p   *linter.CheckerParam
@@ -281,7 +281,7 @@ func checkParamCellsIndependent(t core.TB, rec *core.Recorder) {
 		rec.Nontrivial("param-cell", c.key)
 		for j := range cells {
 			if j != i && before[j] != after[j] {
-				rec.Violation(t, "C06|param-cell-shared|"+c.key+"~"+cells[j].key,
+				rec.Violation(t, id+"|param-cell-shared|"+c.key+"~"+cells[j].key,
 					fmt.Sprintf("setting %s also changes %s (%v -> %v): a parameter given to an unselected checker is not inert", c.key, cells[j].key, before[j], after[j]),
 					map[string]string{"clause": "param-cells"})
 			}
